@@ -10,6 +10,14 @@ def poly(e, atom=None):
     k = e[0]
     if k == 'field' and e[2] == '0' and isinstance(e[1], tuple) and e[1][0] == 'bin' and e[1][1].endswith('WithOverflow'):
         return poly(e[1], atom)
+    # payload of a successful checked operation: (a.checked_add(b) as Some).0, also through `?`
+    if k == 'field' and str(e[2]) == '0' and isinstance(e[1], tuple) and e[1][0] == 'downcast' and e[1][2] in ('Some', 'Continue'):
+        c = strip_casts(e[1][1])
+        if c[0] == 'call' and c[1].endswith('Try>::branch') and len(c[2]) == 1:
+            c = strip_casts(c[2][0])
+        if c[0] == 'call' and len(c[2]) == 2 and (c[1] or '').rsplit('::', 1)[-1] in ('checked_add', 'checked_sub', 'checked_mul'):
+            op = {'checked_add': 'Add', 'checked_sub': 'Sub', 'checked_mul': 'Mul'}[c[1].rsplit('::', 1)[-1]]
+            return poly(('bin', op, c[2][0], c[2][1]), atom)
     if k == 'const' and isinstance(e[1], int):
         return {(): e[1]} if e[1] != 0 else {}
     if k == 'bin':
